@@ -644,19 +644,19 @@ def mt_both(ctx, srcs):
 
 def automaton_cases(ctx, n):
     cases = [(l, s) for l, s in corpus_sources()]
-    for g, s in grammar_batch(ctx, n, max_nts=6, bias_lalr=ctx.rng.choice([0.3, 0.6, 0.9])):
+    for g, s in grammar_batch(ctx, n, max_nts=5, bias_lalr=ctx.rng.choice([0.3, 0.6, 0.9]), motifs=0.7):
         cases.append(('generated', s))
     return cases
 
 
 def check_automaton(ctx, pid):
     res = Result()
-    cases = automaton_cases(ctx, ctx.n(120, 3000))
+    cases = automaton_cases(ctx, ctx.n(300, 5000))
     srcs = [s for _, s in cases]
     r, m = mt_both(ctx, srcs)
     rg = vlib.run_rust('gen', hex_lines(srcs))
     hist = {}
-    budget = ctx.n(60, 1500)
+    budget = ctx.n(150, 2500)
     for (label, s), x, y, xg in zip(cases, r, m, rg):
         parsed = oracles.parse_mt(x)
         cls = 'front-end-error' if parsed is None else ('conflict' if parsed['conflict'] else 'ok')
@@ -676,7 +676,8 @@ def check_automaton(ctx, pid):
             fail = ('generate-does-not-report-the-conflict', short(xg, 100), 'Err(TableConflict(..))')
         if not parsed['conflict'] and not xg.startswith('Ok('):
             fail = ('generate-rejects-a-grammar-whose-table-was-built', short(xg, 100), 'Ok(..)')
-        if fail is None and budget > 0:
+        disagree = y is not None and x != y
+        if fail is None and (budget > 0 or disagree):
             budget -= 1
             ref = oracles.lalr_reference(parsed['file'])
             if ref is not None:
